@@ -72,8 +72,14 @@ fn gen_case(mode: &str, seed: u64, idx: u64, tier: &str) -> Case {
             }
             gen::gen_model(&mut r, &p)
         }
+        "c12" => {
+            let mut p = Profile::mixed();
+            p.litdef_p = 0.0;
+            gen::gen_model(&mut r, &p)
+        }
         "c10" => {
             let mut p = Profile::mixed();
+            p.litdef_p = 0.0;
             p.ncons = (3, 8);
             p.max_space = 6_000.0;
             gen::gen_model(&mut r, &p)
